@@ -402,6 +402,11 @@ type Flow struct {
 	Transfer func(in ssa.Instruction, s int) StateSet                    // states after in when in state s before; nil = identity
 	Branch   func(iff *ssa.If, succ int, s int) (ns int, feasible bool) // optional refinement on the succ-th edge (0=true,1=false)
 	Inline   func(callee *ssa.Function) bool
+	// Tags makes the engine remember, across the return of an inlined helper, the
+	// constant its last (bool) result had, until the caller branches on that
+	// result: `if !helper() { return }` then follows only the helper's `return
+	// false` paths. States must stay below 21 when Tags is set.
+	Tags bool
 
 	memo  map[flowKey]StateSet
 	stack map[*ssa.Function]bool
@@ -422,11 +427,68 @@ type FlowResult struct {
 	Exit StateSet
 }
 
+func (f *Flow) dec(c int) (int, int) {
+	if !f.Tags {
+		return c, 0
+	}
+	return c / 3, c % 3
+}
+
+func (f *Flow) enc(s, tag int) int {
+	if !f.Tags {
+		return s
+	}
+	return s*3 + tag
+}
+
+func (f *Flow) strip(st StateSet) StateSet {
+	if !f.Tags {
+		return st
+	}
+	var o StateSet
+	for _, c := range st.List() {
+		o = o.Add(c / 3)
+	}
+	return o
+}
+
+// callResultCond: the If condition is (a negation of) the last result of a
+// call to an inlined helper; neg reports the negation.
+func (f *Flow) callResultCond(cond ssa.Value) (isCall bool, neg bool) {
+	for {
+		u, ok := cond.(*ssa.UnOp)
+		if !ok || u.Op != token.NOT {
+			break
+		}
+		cond, neg = u.X, !neg
+	}
+	var call *ssa.Call
+	switch x := cond.(type) {
+	case *ssa.Call:
+		call = x
+	case *ssa.Extract:
+		if c, ok := x.Tuple.(*ssa.Call); ok {
+			if cal := c.Common().StaticCallee(); cal != nil && x.Index == cal.Signature.Results().Len()-1 {
+				call = c
+			}
+		}
+	}
+	if call == nil {
+		return false, neg
+	}
+	cal := call.Common().StaticCallee()
+	return cal != nil && f.Inline != nil && f.Inline(cal), neg
+}
+
 func (f *Flow) Run() *FlowResult {
 	f.res = &FlowResult{In: map[*ssa.BasicBlock]StateSet{}, Before: map[ssa.Instruction]StateSet{}, After: map[ssa.Instruction]StateSet{}}
 	f.memo = map[flowKey]StateSet{}
 	f.stack = map[*ssa.Function]bool{}
-	f.res.Exit = f.runFn(f.Fn, f.Entry, 0)
+	var entry StateSet
+	for _, s := range f.Entry.List() {
+		entry = entry.Add(f.enc(s, 0))
+	}
+	f.res.Exit = f.strip(f.runFn(f.Fn, entry, 0))
 	return f.res
 }
 
@@ -447,27 +509,50 @@ func (f *Flow) runFn(fn *ssa.Function, entry StateSet, depth int) StateSet {
 		inWork[b] = false
 		cur := in[b]
 		for _, ins := range b.Instrs {
-			res.Before[ins] |= cur
+			res.Before[ins] |= f.strip(cur)
 			var nxt StateSet
-			if f.Transfer == nil {
-				nxt = cur
-			} else {
-				for _, s := range cur.List() {
-					nxt |= f.Transfer(ins, s)
+			for _, c := range cur.List() {
+				s, tag := f.dec(c)
+				var o StateSet
+				if f.Transfer == nil {
+					o = o.Add(s)
+				} else {
+					o = f.Transfer(ins, s)
+				}
+				nt := 0
+				if f.Tags {
+					switch x := ins.(type) {
+					case *ssa.If, *ssa.UnOp, *ssa.DebugRef, *ssa.Phi, *ssa.BinOp, *ssa.Jump, *ssa.Extract:
+						nt = tag
+					case *ssa.Return:
+						if depth > 0 && len(x.Results) > 0 {
+							if k, ok := x.Results[len(x.Results)-1].(*ssa.Const); ok && k.Value != nil && k.Value.Kind() == constant.Bool {
+								if constant.BoolVal(k.Value) {
+									nt = 1
+								} else {
+									nt = 2
+								}
+							}
+						}
+					}
+				}
+				for _, s2 := range o.List() {
+					nxt = nxt.Add(f.enc(s2, nt))
 				}
 			}
 			if f.Inline != nil && depth < 8 {
 				if c, ok := ins.(*ssa.Call); ok {
 					if cal := c.Common().StaticCallee(); cal != nil && len(cal.Blocks) > 0 && !f.stack[cal] && cal != fn && f.Inline(cal) {
 						var out StateSet
-						for _, s := range nxt.List() {
+						for _, code := range nxt.List() {
+							s, _ := f.dec(code)
 							k := flowKey{cal, s}
 							if v, ok := f.memo[k]; ok {
 								out |= v
 								continue
 							}
 							f.stack[fn] = true
-							v := f.runFn(cal, StateSet(0).Add(s), depth+1)
+							v := f.runFn(cal, StateSet(0).Add(f.enc(s, 0)), depth+1)
 							f.stack[fn] = false
 							f.memo[k] = v
 							out |= v
@@ -476,11 +561,10 @@ func (f *Flow) runFn(fn *ssa.Function, entry StateSet, depth int) StateSet {
 					}
 				}
 			}
-			res.After[ins] |= nxt
+			res.After[ins] |= f.strip(nxt)
 			cur = nxt
 			if r, ok := ins.(*ssa.Return); ok {
 				if !(fn.Recover != nil && r.Block() == fn.Recover) {
-					exit |= res.Before[ins] & cur
 					exit |= cur
 				}
 			}
@@ -491,11 +575,26 @@ func (f *Flow) runFn(fn *ssa.Function, entry StateSet, depth int) StateSet {
 		}
 		for i, sc := range b.Succs {
 			out := cur
-			if iff != nil && f.Branch != nil {
+			if iff != nil && (f.Branch != nil || f.Tags) {
 				out = 0
-				for _, s := range cur.List() {
-					if ns, ok := f.Branch(iff, i, s); ok {
-						out = out.Add(ns)
+				isCall, neg := false, false
+				if f.Tags {
+					isCall, neg = f.callResultCond(iff.Cond)
+				}
+				for _, c := range cur.List() {
+					s, tag := f.dec(c)
+					if isCall && tag != 0 {
+						truth := (i == 0) != neg
+						if (tag == 1) != truth {
+							continue
+						}
+					}
+					ns, ok := s, true
+					if f.Branch != nil {
+						ns, ok = f.Branch(iff, i, s)
+					}
+					if ok {
+						out = out.Add(f.enc(ns, 0))
 					}
 				}
 			}
@@ -510,7 +609,7 @@ func (f *Flow) runFn(fn *ssa.Function, entry StateSet, depth int) StateSet {
 		}
 	}
 	for b, s := range in {
-		res.In[b] |= s
+		res.In[b] |= f.strip(s)
 	}
 	return exit
 }
